@@ -316,7 +316,12 @@ func c15Gen(t *rapid.T) C15Case {
 		default:
 			e.TS = uint64(rapid.Int64Range(978307200, 7258118400).Draw(t, "sec"))*1e9 + rapid.Uint64Range(0, 999999999).Draw(t, "ns")
 		}
-		switch rapid.IntRange(0, 6).Draw(t, "msgkind") {
+		switch rapid.IntRange(0, 7).Draw(t, "msgkind") {
+		case 7:
+			// A line about as long as a buffer a writer may use (the daemon splits records only at
+			// 16 KiB): whatever is batched, the lines come out in time order.
+			n := rapid.SampledFrom([]int{512, 1024, 4096, 8192, 16384, 32768, 65536}).Draw(t, "long-size") + rapid.IntRange(-40, 40).Draw(t, "long-delta")
+			e.Msg = gen.BS(strings.Repeat(rapid.SampledFrom([]string{"x", "ab", "é"}).Draw(t, "long-fill"), n)[:n] + rapid.SampledFrom([]string{"", "\n", "\r\n"}).Draw(t, "long-end"))
 		case 0:
 			e.Msg = gen.BS(rapid.SampledFrom([]string{"", "\n", "\r\n", "x\n", "x\r\n\r\n", "a\nb", "a\r\nb\n", "\nlead", " trail \n", "tab\t"}).Draw(t, "lb"))
 		case 1:
